@@ -47,6 +47,14 @@ def witness_cases(ctx, pool, scale):
             cases.append(('r1.new', E(P), [k * x % Q, k * y % Q, sv], None, ' enc=%x coords=%x,%x' % (sv, k * x % Q, k * y % Q)))
     for sv in (0, 8):
         cases.append(('r1.new', E(P), [0, 0, sv], None, ' enc=%x coords=0,0' % sv))
+    # the AffinePoint entry point of witness allocation, offered on-curve points OUTSIDE the group (P + T4 with T4 of order 4, T4 itself,
+    # the order-2 point is the other identity representative), off-curve pairs, and honest points
+    i4 = pyref.sqrt(Q - 1); T4 = (i4, 0)
+    offers = [T4, ((Q - i4) % Q, 0), (0, Q - 1), (0, 1), (5, 7), (0, 0)]
+    for (x, y), sv in pts[:2 + scale]:
+        offers += [(x, y), pyref.ed_add((x, y), T4), pyref.ed_add((x, y), pyref.ed_neg(T4)), ((Q - x) % Q, (Q - y) % Q)]
+    for (x, y) in offers:
+        cases.append(('r1.new_affine', '%x,%x' % (x, y), [x, y], None, ''))
     return cases
 
 def classify(op, margs, hint):
@@ -101,6 +109,10 @@ def run_check(ctx):
         elif op == 'r1.encode':
             nat = pyref.encode_spec((margs[0], margs[1]))
             if hv is None or nat is None or hv[0] != nat: bad = 'in-circuit encode of (%x,%x) returns %s, native gives %s' % (margs[0], margs[1], v, ('%x' % nat) if nat is not None else None)
+        elif op == 'r1.new_affine':
+            px, py = margs
+            if not pyref.valid([px, py, 1, px * py % Q]): bad = 'witness allocation from an AffinePoint accepts the coordinates (%x,%x), which are not a group element, and returns (%s)' % (px, py, v)
+            elif hv is None or not pyref.coset_eq(tuple(hv), (px, py)): bad = 'witness allocation from the AffinePoint (%x,%x) returns (%s)' % (px, py, v)
         elif op == 'r1.new':
             px, py, s = margs; nat = pyref.decode_spec(s)
             if nat is None: bad = 'witness allocation accepts the invalid encoding %x (offered coordinates %x,%x) and returns (%s)' % (s, px, py, v)
